@@ -176,6 +176,10 @@ fn check_decode_inner<T: Pixel>(acc: &mut Acc, idx: u64, tier: Tier, c: &DecCase
     };
     acc.states += 1;
     for t in [Target::Rgb, Target::Lin, Target::Xyb] {
+        // the multi-megapixel frame goes to Rgb only: the plane traversal is shared by the three targets
+        if c.w * c.h > 1_000_000 && t != Target::Rgb {
+            continue;
+        }
         acc.transitions += 1;
         let (out, ow, oh) = match from_yuv(t, &base, false) {
             Ok(o) => o,
@@ -1323,6 +1327,10 @@ fn enc_cases(tier: Tier) -> Vec<EncCase> {
                 }
                 for wide in [false, true] {
                     for src in 0..4u8 {
+                        // the multi-megapixel frame: one storage type, one source kind
+                        if w * h > 1_000_000 && (wide || src != 0) {
+                            continue;
+                        }
                         let k = ((w + h + src as usize) % 4) as u8;
                         v.push(EncCase { w, h, ss, wide, k, src });
                     }
